@@ -105,16 +105,17 @@ class Recorder:
         return out
 
 
-def run(scn, seed=0, yields=None, raise_mask_acc=None, raise_mask_req=None, watchdog=12.0):
+def run(scn, seed=0, yields=None, raise_mask_acc=None, raise_mask_req=None, watchdog=20.0):
     """Executes one lifecycle scenario. Returns dict(history, outcome, problems)."""
     from pynetdicom import evt, build_context
     from pydicom.dataset import Dataset
     taps.reset()
     rec = Recorder()
     sync = {"handler_entered": threading.Event(), "go_end": threading.Event(), "established": threading.Event()}
-    acc_net = scn.get("acc_net_timeout", 2.0)
-    ae_acc = harness.make_ae(title="ACCEPTOR", timeouts=(1.0, 1.0, acc_net, 1.0), supported=[VER, CT, FIND])
-    ae_req = harness.make_ae(title="REQUESTOR", timeouts=(1.0, 1.0, 2.5, 1.0), requested=[VER, CT, FIND])
+    acc_net = scn.get("acc_net_timeout", 3.0)
+    # ACSE/DIMSE timeouts are generous so that a loaded machine cannot turn a slow answer into a timeout-abort
+    ae_acc = harness.make_ae(title="ACCEPTOR", timeouts=(3.0, 3.0, acc_net, 3.0), supported=[VER, CT, FIND])
+    ae_req = harness.make_ae(title="REQUESTOR", timeouts=(3.0, 3.0, 4.0, 3.0), requested=[VER, CT, FIND])
     if scn.get("reject"):
         ae_acc.require_called_aet = True
     acc_assoc = {}
@@ -238,7 +239,7 @@ def run(scn, seed=0, yields=None, raise_mask_acc=None, raise_mask_req=None, watc
                 t2.start(); threads.append(t2)
                 assoc.abort()
             elif end == "wait":
-                harness.wait_for(lambda: not assoc.is_established, 4.0)
+                harness.wait_for(lambda: not assoc.is_established, 8.0)
         except Exception as exc:
             res.setdefault("user_exc", []).append(repr(exc))
 
